@@ -82,6 +82,16 @@ func c03Run(c *vcore.Ctx) *vcore.Violation {
 			script = append(script, "join")
 		}
 	}
+	// a traced call without a path (sched_yield): the policy sees only its name, and answers each
+	// occurrence on its own (a budget, an allow-once rule): the k-th answer applies to the k-th call
+	var yields []string
+	for i, n := 0, src.Int(5, "nyields"); i < n; i++ {
+		yields = append(yields, src.Pick("yield_verdict", "allow", "ban"))
+		script = append(script, "sys", "24", "0", "0", "0", "0", "0", "0")
+	}
+	if len(yields) > 0 {
+		c.Event("yields:" + strings.Join(yields, ","))
+	}
 	script = append(script, "wait", "exit", "0")
 	if src.Bool(1, 4, "lingering_thread") {
 		// another thread of the group is alive (sleeping, no traced calls) while the leader makes its calls:
@@ -101,7 +111,15 @@ func c03Run(c *vcore.Ctx) *vcore.Violation {
 		c.Event(cl.proc + ":" + cl.verdict)
 	}
 	c.Logf("BanRet=%d script=%s", int(banRet), strings.ReplaceAll(strings.Join(script, " "), dir, "$D"))
+	yieldIdx := 0
 	h := &recHandler{decide: func(kind, arg string, n int) ptracer.TraceAction {
+		if kind == "syscall" && arg == "sched_yield" {
+			yieldIdx++
+			if yieldIdx <= len(yields) && yields[yieldIdx-1] == "allow" {
+				return ptracer.TraceAllow
+			}
+			return ptracer.TraceBan
+		}
 		base := filepath.Base(arg)
 		switch {
 		case strings.HasPrefix(base, "allow_"):
@@ -112,7 +130,7 @@ func c03Run(c *vcore.Ctx) *vcore.Violation {
 		return ptracer.TraceKill
 	}}
 	// allow everything except mkdirat (traced) and mkdir (killed by the filter default)
-	filter := kFilterAllowAllBut([]string{"mkdirat"}, []string{"mkdir"})
+	filter := kFilterAllowAllBut([]string{"mkdirat", "sched_yield"}, []string{"mkdir"})
 	var res runner.Result
 	var out *kOut
 	// the caller's stack depth when it starts the run (see withStackPhase)
@@ -193,14 +211,22 @@ func c03Run(c *vcore.Ctx) *vcore.Violation {
 	// return values as seen by the program: allowed -> 0, banned -> -BanRet (threads may be cut short)
 	rets := out.rets()
 	if !hasThread {
-		if len(rets) != len(calls) {
-			return vcore.Violate(prop, "calls_lost", "rets", "the program reported %d results for %d calls", len(rets), len(calls))
+		if len(rets) != len(calls)+len(yields) {
+			return vcore.Violate(prop, "calls_lost", "rets", "the program reported %d results for %d calls", len(rets), len(calls)+len(yields))
+		}
+		if yieldIdx != len(yields) {
+			return vcore.Violate(prop, "consultation_count", "pathless_call", "the program made %d traced calls without a path, the policy was asked %d times", len(yields), yieldIdx)
 		}
 		// results are reported per process in program order; with several processes the global order of
 		// report lines is not the script order, so compare as multisets per verdict
 		wantBan, gotBan, gotOK := 0, 0, 0
 		for _, cl := range calls {
 			if cl.verdict == "ban" {
+				wantBan++
+			}
+		}
+		for _, y := range yields {
+			if y == "ban" {
 				wantBan++
 			}
 		}
@@ -224,7 +250,7 @@ func c03Run(c *vcore.Ctx) *vcore.Violation {
 func init() {
 	register(&vcore.Prop{
 		ID: "C03", Level: "exploration", Worlds: "K",
-		Rule:       "one run = one probe program of 1..4 blocks executed by the main process, a forked child, a vforked child or a thread (children issue their first traced call immediately); every call is mkdirat of a unique name (traced; verdict allow/ban/kill decided by the scripted handler from the name) or mkdir (outside both lists: killed by the filter default); BanRet varied per run; afterwards the file system and the program's own report of return values are compared with the verdicts. distinct = hash of the (process, verdict) sequence; non-trivial = a secondary process or thread issued calls",
+		Rule:       "one run = one probe program of 1..4 blocks executed by the main process, a forked child, a vforked child or a thread (children issue their first traced call immediately); every call is mkdirat of a unique name (traced; verdict allow/ban/kill decided by the scripted handler from the name) or mkdir (outside both lists: killed by the filter default), plus 0..4 traced calls without a path (sched_yield) each answered on its own; the caller's stack depth is swept; BanRet varied per run; afterwards the file system and the program's own report of return values are compared with the verdicts. distinct = hash of the (process, verdict) sequence; non-trivial = a secondary process or thread issued calls",
 		Components: kComponents, Assumptions: append([]string{"the relative order of two simultaneously pending tracee stops is the kernel's; oracles do not depend on it"}, kAssume...), NeedNS: true,
 		Quick:    vcore.Budget{Wall: 30 * time.Second, Shards: 16},
 		Thorough: vcore.Budget{Wall: 12 * time.Minute, Shards: 16},
